@@ -789,6 +789,21 @@ def main(tier, replay=None):
             rep.disagree({"what": what, "layout": r["lay"], "detail": detail}, key=key)
         if not r["issues"] and len(samples) < 6 and r.get("fixed") == "yes" and len(r["lay"]["lines"]) >= 4 and r["text"].count("//") >= 2:
             samples.append({"layout": r["lay"], "text": r["text"], "fmt": r["f1"], "fixed_point": r["fixed"]})
+    # ---- "very large/small floats": a literal beyond the range of a double (the generators' floats are decimal pairs)
+    hq = C.Harness(hp)
+    try:
+        for text in ("let x = 1" + "0" * 309 + ".0;\n", "let x = [0 - 1" + "0" * 310 + ".5];\n"):
+            a = hq.req({"op": "fmt", "src": text})
+            b = hq.req({"op": "parse", "src": a.get("text", "")}) if a.get("ok") else {}
+            c = hq.req({"op": "parse", "src": text})
+            stats["layouts"] += 1
+            same = a.get("ok") and b.get("ok") and c.get("ok") and json.dumps(b["stmts"], sort_keys=True) == json.dumps(c["stmts"], sort_keys=True)
+            if not same:
+                rep.disagree({"what": "a float literal beyond the range of a double is not formatted to text of the same meaning",
+                              "text": text[:40] + "...", "formatted": a.get("text", str(a))[:200]},
+                             key="float-literal-beyond-f64-printed-as-inf")
+    finally:
+        hq.close()
     # ---- the binary
     bin_texts += ["let a = 1;\n// c\n", "let broken = ;\n"]
     binary_sample(C.ensure_ucg(), hp, bin_texts, rep, stats)
